@@ -1,13 +1,185 @@
-// Package selftest holds the canaries (every run) and overlay mutants (thorough tier).
+// Package selftest holds the engine canaries (every run) and the overlay mutants of the real
+// source (thorough tier). Neither ever produces a property alarm: the property verdict
+// depends only on the unmodified tree. A canary failure fails the run as SELFTEST-FAILED
+// (the engines are broken, nothing they say can be believed); a missed mutant is recorded
+// and printed but does not change the exit code.
 package selftest
 
 import (
+	"encoding/json"
+	"fmt"
+	"os"
+	"os/exec"
+	"path/filepath"
+	"sort"
+	"strings"
+	"sync"
+	"time"
+
+	"ibcheck/eng"
+	"ibcheck/rep"
 	"ibcheck/rules"
 )
 
-// Run executes the self-tests that belong to prop and records them in the report.
-func Run(c *rules.Ctx, prop, repo string) {
+// Mutant is one seeded edit of the real source.
+type Mutant struct {
+	ID     string `json:"id"`
+	Prop   string `json:"prop"`
+	File   string `json:"file"`
+	Old    string `json:"old"`
+	New    string `json:"new"`
+	Expect string `json:"expect"` // rule-id prefix that must report a non-discharged obligation
+	Note   string `json:"note"`
 }
 
-// RunMutantWorker runs one overlay mutant in this process and prints its verdict.
-func RunMutantWorker(repo, id string) int { return 0 }
+// Result of one mutant run.
+type Result struct {
+	ID     string   `json:"id"`
+	Status string   `json:"status"` // fired | missed | skipped | no-compile | error
+	Note   string   `json:"note,omitempty"`
+	Keys   []string `json:"fired_keys,omitempty"`
+	Detail string   `json:"detail,omitempty"`
+}
+
+func loadCorpus(verif string) ([]Mutant, error) {
+	b, err := os.ReadFile(filepath.Join(verif, "selftest", "mutants.json"))
+	if err != nil {
+		return nil, err
+	}
+	var c struct {
+		Mutants []Mutant `json:"mutants"`
+	}
+	if err := json.Unmarshal(b, &c); err != nil {
+		return nil, err
+	}
+	return c.Mutants, nil
+}
+
+// Run executes the self-tests that belong to prop and records them in the report.
+func Run(c *rules.Ctx, prop, repo, verif string) {
+	if c.Tier != "thorough" {
+		return
+	}
+	corpus, err := loadCorpus(verif)
+	if err != nil {
+		c.R.Selftest["mutants_error"] = err.Error()
+		return
+	}
+	var mine []Mutant
+	for _, m := range corpus {
+		if m.Prop == prop {
+			mine = append(mine, m)
+		}
+	}
+	exe, err := os.Executable()
+	if err != nil {
+		c.R.Selftest["mutants_error"] = err.Error()
+		return
+	}
+	results := make([]Result, len(mine))
+	sem := make(chan struct{}, 6)
+	var wg sync.WaitGroup
+	for i, m := range mine {
+		i, m := i, m
+		wg.Add(1)
+		go func() {
+			defer wg.Done()
+			sem <- struct{}{}
+			defer func() { <-sem }()
+			cmd := exec.Command(exe, "-mutant", m.ID, "-repo", repo, "-verif", verif)
+			cmd.Env = os.Environ()
+			out, err := cmd.Output()
+			var res Result
+			if jerr := json.Unmarshal(lastLine(out), &res); jerr != nil {
+				res = Result{ID: m.ID, Status: "error", Detail: fmt.Sprintf("%v %v", err, jerr)}
+			}
+			res.Note = m.Note
+			results[i] = res
+		}()
+	}
+	wg.Wait()
+	counts := map[string]int{}
+	for _, r := range results {
+		counts[r.Status]++
+		if r.Status != "fired" && r.Status != "skipped" {
+			fmt.Printf("SELFTEST-%s property=%s mutant=%s (%s) %s\n", strings.ToUpper(r.Status), prop, r.ID, r.Note, r.Detail)
+		}
+	}
+	c.R.Selftest["mutants"] = results
+	c.R.Selftest["mutant_counts"] = counts
+	c.R.Analysed["selftest:overlay mutants run"] = len(results)
+	c.R.Analysed["selftest:overlay mutants fired"] = counts["fired"]
+}
+
+func lastLine(b []byte) []byte {
+	lines := strings.Split(strings.TrimSpace(string(b)), "\n")
+	return []byte(lines[len(lines)-1])
+}
+
+// RunMutantWorker runs one overlay mutant in this process and prints its verdict as JSON.
+func RunMutantWorker(repo, verif, id string) int {
+	emit := func(r Result) int {
+		b, _ := json.Marshal(r)
+		fmt.Println(string(b))
+		return 0
+	}
+	corpus, err := loadCorpus(verif)
+	if err != nil {
+		return emit(Result{ID: id, Status: "error", Detail: err.Error()})
+	}
+	var m *Mutant
+	for i := range corpus {
+		if corpus[i].ID == id {
+			m = &corpus[i]
+		}
+	}
+	if m == nil {
+		return emit(Result{ID: id, Status: "error", Detail: "unknown mutant"})
+	}
+	path := filepath.Join(repo, m.File)
+	src, err := os.ReadFile(path)
+	if err != nil {
+		return emit(Result{ID: id, Status: "skipped", Detail: "file missing"})
+	}
+	if strings.Count(string(src), m.Old) < 1 || m.Old == "" {
+		return emit(Result{ID: id, Status: "skipped", Detail: "textual anchor not present in the current tree"})
+	}
+	mutated := strings.Replace(string(src), m.Old, m.New, 1)
+	p, err := eng.Load(eng.LoadOpts{Dir: repo, Overlay: map[string][]byte{path: []byte(mutated)}})
+	if err != nil {
+		return emit(Result{ID: id, Status: "no-compile", Detail: firstLine(err.Error())})
+	}
+	r := rep.New(m.Prop, "quick", verif, time.Now())
+	r.Quiet = true
+	c := &rules.Ctx{P: p, R: r, Tier: "quick"}
+	if !rules.Run(m.Prop, c) {
+		return emit(Result{ID: id, Status: "error", Detail: "unknown property"})
+	}
+	var keys []string
+	for _, o := range r.Obs {
+		if o.Outcome != rep.Discharged && strings.HasPrefix(o.Key, m.Expect) {
+			keys = append(keys, o.Key)
+		}
+	}
+	sort.Strings(keys)
+	if len(keys) > 0 {
+		return emit(Result{ID: id, Status: "fired", Keys: keys})
+	}
+	var other []string
+	for _, o := range r.Obs {
+		if o.Outcome != rep.Discharged {
+			other = append(other, o.Key)
+		}
+	}
+	return emit(Result{ID: id, Status: "missed", Detail: fmt.Sprintf("expected a non-discharged %s…; non-discharged: %v", m.Expect, other)})
+}
+
+func firstLine(s string) string {
+	if i := strings.Index(s, "\n"); i >= 0 {
+		j := strings.Index(s[i+1:], "\n")
+		if j >= 0 {
+			return s[:i+1+j]
+		}
+	}
+	return s
+}
